@@ -411,6 +411,9 @@ func idsOfSet(s map[string]bool, extra ...primitives.MemberId) []primitives.Memb
 }
 
 func (m *Monitors) onSend(n *Node, sm *SentMsg) {
+	if m.w.CloneMode && m.on("C11") {
+		m.cloneCheck(n, sm)
+	}
 	nm := m.per[n.Idx]
 	meta := sm.Meta
 	if !meta.OK {
